@@ -87,6 +87,9 @@ pub struct Membership {
     pub storages: Vec<(bool, IndexSet)>,
     pub bitsets: Vec<(bool, IndexSet)>,
     pub changes: Vec<(u32, i32)>,
+    /// storages are filled in an order derived from this seed, with some remove / re-insert churn
+    /// (0 = ascending, no churn)
+    pub churn: u16,
 }
 
 pub const N_STORAGES: usize = 8;
@@ -102,8 +105,9 @@ pub fn membership() -> impl Strategy<Value = Membership> {
         proptest::collection::vec(dense_or_sparse(), N_STORAGES),
         proptest::collection::vec(dense_or_sparse(), N_BITSETS),
         proptest::collection::vec((any::<u32>(), -50i32..50), 0..12),
+        prop_oneof![1 => Just(0u16), 3 => any::<u16>()],
     )
-        .prop_map(|(scale, span_frac, dead, pending_dead, raised, storages, bitsets, changes)| Membership {
+        .prop_map(|(scale, span_frac, dead, pending_dead, raised, storages, bitsets, changes, churn)| Membership {
             scale,
             span_frac,
             dead,
@@ -112,6 +116,7 @@ pub fn membership() -> impl Strategy<Value = Membership> {
             storages,
             bitsets,
             changes,
+            churn,
         })
 }
 
@@ -166,13 +171,38 @@ pub struct JoinWorld {
     pub model: Model,
 }
 
-fn fill<C: ZooComp>(world: &World, set: &BTreeSet<u32>, handles: &BTreeMap<u32, Entity>, salt: u32) -> BTreeMap<u32, Ident> {
+fn fill<C: ZooComp>(world: &World, set: &BTreeSet<u32>, handles: &BTreeMap<u32, Entity>, salt: u32, churn: u16) -> BTreeMap<u32, Ident> {
     let mut st = world.write_storage::<C>();
     let mut out = BTreeMap::new();
-    for i in set {
+    let mut order: Vec<u32> = set.iter().cloned().collect();
+    if churn != 0 && order.len() <= 20_000 {
+        // deterministic shuffle so that insertion order differs from index order
+        let mut x = (churn as u64 + 1).wrapping_mul(0x9E37_79B9_7F4A_7C15) ^ salt as u64;
+        for i in (1..order.len()).rev() {
+            x ^= x << 13;
+            x ^= x >> 7;
+            x ^= x << 17;
+            order.swap(i, (x % (i as u64 + 1)) as usize);
+        }
+    }
+    for i in &order {
         let c = C::make(1000 + salt * 7 + (*i % 97));
         out.insert(*i, c.ident());
         st.insert(handles[i], c).expect("live entity");
+    }
+    if churn != 0 && order.len() <= 20_000 {
+        // remove a few members from the middle of the insertion order and put them back
+        let n = order.len();
+        let victims: Vec<u32> = (0..n).filter(|k| (k * 7 + churn as usize) % 5 == 0).take(12).map(|k| order[k]).collect();
+        for i in &victims {
+            let old = st.remove(handles[i]);
+            zoo::caller_drop(old);
+        }
+        for i in victims.iter().rev() {
+            let c = C::make(1000 + salt * 7 + (*i % 97));
+            out.insert(*i, c.ident());
+            st.insert(handles[i], c).expect("live entity");
+        }
     }
     out
 }
@@ -220,7 +250,8 @@ pub fn build(m: &Membership) -> JoinWorld {
     let mut masks = vec![];
     for (inv, s) in &m.storages {
         let set = s.expand(span);
-        let set: BTreeSet<u32> = if *inv && span <= 5000 {
+        // nearly-full masks are expensive to build: at large scale only the first storage gets one
+        let set: BTreeSet<u32> = if *inv && (span <= 5000 || masks.is_empty()) {
             alive.iter().filter(|i| !set.contains(i)).cloned().collect()
         } else {
             set.intersection(&alive).cloned().collect()
@@ -228,14 +259,14 @@ pub fn build(m: &Membership) -> JoinWorld {
         masks.push(set);
     }
     let vals = vec![
-        fill::<CVec>(&world, &masks[0], &handles, 0),
-        fill::<CDense>(&world, &masks[1], &handles, 1),
-        fill::<CHash>(&world, &masks[2], &handles, 2),
-        fill::<CBTree>(&world, &masks[3], &handles, 3),
-        fill::<CDefault>(&world, &masks[4], &handles, 4),
-        fill::<CNull>(&world, &masks[5], &handles, 5),
-        fill::<CFlagVec>(&world, &masks[6], &handles, 6),
-        fill::<CDerefDense>(&world, &masks[7], &handles, 7),
+        fill::<CVec>(&world, &masks[0], &handles, 0, m.churn),
+        fill::<CDense>(&world, &masks[1], &handles, 1, m.churn),
+        fill::<CHash>(&world, &masks[2], &handles, 2, m.churn),
+        fill::<CBTree>(&world, &masks[3], &handles, 3, m.churn),
+        fill::<CDefault>(&world, &masks[4], &handles, 4, m.churn),
+        fill::<CNull>(&world, &masks[5], &handles, 5, m.churn),
+        fill::<CFlagVec>(&world, &masks[6], &handles, 6, m.churn),
+        fill::<CDerefDense>(&world, &masks[7], &handles, 7, m.churn),
     ];
     let mut bits = vec![];
     let mut b = vec![];
@@ -243,7 +274,7 @@ pub fn build(m: &Membership) -> JoinWorld {
         // bit sets are not tied to entities; the third one may exceed the span
         let bspan = if k == 2 { span.saturating_mul(2).min(1 << 20) } else { span };
         let set = s.expand(bspan);
-        let set: BTreeSet<u32> = if *inv { (0..span.min(3000)).filter(|i| !set.contains(i)).collect() } else { set };
+        let set: BTreeSet<u32> = if *inv { (0..span).filter(|i| !set.contains(i)).collect() } else { set };
         let mut bs = BitSet::new();
         for i in &set {
             bs.add(*i);
